@@ -2,6 +2,7 @@
 //! Every subcommand either executes specification-generated behaviours on the real code
 //! or records executions of the real code as ndjson traces for TLC to validate.
 mod absdev;
+mod apidrv;
 mod cachedrv;
 mod concdrv;
 mod crashdrv;
@@ -72,6 +73,7 @@ fn main() {
         "chunkrec" => crashdrv::chunkrec_main(rest),
         "stalechain" => crashdrv::stalechain_main(rest),
         "uringfault" => crashdrv::uringfault_main(rest),
+        "apisurface" => apidrv::main(rest),
         "clocksat" => seqdrv::clocksat(rest),
         "faultstory" => seqdrv::faultstory(rest),
         "inflightstory" => seqdrv::inflightstory(rest),
